@@ -365,6 +365,335 @@ def deque_primitives(default_tree):
     return out
 
 
+# ---- C08/C09: statement-level translation of deque programs and task-state predicates ---------
+
+class DequeProg:
+    """Statement-level translation of a function that manipulates one deque (`dq`) with
+    `rotate/popleft/pop/remove/insert/append`, integer locals, `len(dq)`, `if`, `return`, `raise`.
+    The deque is a `List α`; every mutation binds a new list name; an exception is `none`.
+    `if` without a returning branch is translated by duplicating the continuation, so local
+    re-assignments need no merging."""
+
+    def __init__(self, dq, ints, elems=(), ret="elem"):
+        self.n = 0
+        self.dq0 = dq
+        self.ints0 = {k: k for k in ints}
+        self.elems0 = {k: k for k in elems}
+        self.ret = ret            # "elem": return (x, deque) ; "deque": return the deque
+
+    def fresh(self, base):
+        self.n += 1
+        return f"{base}{self.n}"
+
+    def iexpr(self, e, env):
+        if isinstance(e, ast.Constant) and isinstance(e.value, int) and not isinstance(e.value, bool):
+            return str(e.value) if e.value >= 0 else f"({e.value})"
+        if isinstance(e, ast.Name):
+            if e.id in env["ints"]:
+                return env["ints"][e.id]
+            raise Unsupported(f"integer name {e.id}")
+        if isinstance(e, ast.UnaryOp) and isinstance(e.op, ast.USub):
+            return f"(-{self.iexpr(e.operand, env)})"
+        if isinstance(e, ast.BinOp) and isinstance(e.op, (ast.Add, ast.Sub)):
+            op = "+" if isinstance(e.op, ast.Add) else "-"
+            return f"({self.iexpr(e.left, env)} {op} {self.iexpr(e.right, env)})"
+        if isinstance(e, ast.BinOp) and isinstance(e.op, ast.RShift) and isinstance(e.right, ast.Constant) \
+                and isinstance(e.right.value, int) and 0 <= e.right.value < 32:
+            # x >> k on Python ints is floor division by 2^k; Lean's Int `/` is Euclidean: same for a positive divisor
+            return f"({self.iexpr(e.left, env)} / {2 ** e.right.value})"
+        if isinstance(e, ast.BinOp) and isinstance(e.op, ast.FloorDiv) and isinstance(e.right, ast.Constant) \
+                and isinstance(e.right.value, int) and e.right.value > 0:
+            return f"({self.iexpr(e.left, env)} / {e.right.value})"
+        if isinstance(e, ast.Call) and isinstance(e.func, ast.Name) and e.func.id == "len" and len(e.args) == 1 \
+                and isinstance(e.args[0], ast.Name) and e.args[0].id == env["dqname"]:
+            return f"({env['dq']}.length : Int)"
+        raise Unsupported(f"integer expression {ast.dump(e)[:80]}")
+
+    def cond(self, e, env):
+        if isinstance(e, ast.Compare) and len(e.ops) == 1:
+            sym = {ast.Lt: "<", ast.Gt: ">", ast.LtE: "≤", ast.GtE: "≥", ast.Eq: "=", ast.NotEq: "≠"}.get(type(e.ops[0]))
+            if sym is None:
+                raise Unsupported("comparison")
+            return f"{self.iexpr(e.left, env)} {sym} {self.iexpr(e.comparators[0], env)}"
+        if isinstance(e, ast.Name) and e.id in env.get("bools", {}):
+            return f"{env['bools'][e.id]} = true"
+        raise Unsupported(f"condition {ast.dump(e)[:80]}")
+
+    @staticmethod
+    def _dq_call(e, env):
+        """(method, args) when `e` is `<dq>.<method>(args)`"""
+        if isinstance(e, ast.Call) and isinstance(e.func, ast.Attribute) and isinstance(e.func.value, ast.Name) \
+                and e.func.value.id == env["dqname"] and not e.keywords:
+            return e.func.attr, e.args
+        return None
+
+    def elem(self, e, env):
+        if isinstance(e, ast.Name) and e.id in env["elems"]:
+            return env["elems"][e.id]
+        raise Unsupported(f"element expression {ast.dump(e)[:60]}")
+
+    def block(self, stmts, env, ind):
+        if not stmts:
+            raise Unsupported("control can fall off the end of the function")
+        s, rest = stmts[0], stmts[1:]
+        env = {**env, "ints": dict(env["ints"]), "elems": dict(env["elems"])}
+        if isinstance(s, ast.Raise):
+            exc = s.exc.func.id if isinstance(s.exc, ast.Call) and isinstance(s.exc.func, ast.Name) else \
+                (s.exc.id if isinstance(s.exc, ast.Name) else None)
+            if exc not in ("IndexError", "ValueError"):
+                raise Unsupported("raise of something else")
+            return f"{ind}none"
+        if isinstance(s, ast.Return):
+            if self.ret == "elem":
+                return f"{ind}some ({self.elem(s.value, env)}, {env['dq']})"
+            if self.ret == "optelem":
+                if isinstance(s.value, ast.Constant) and s.value.value is None:
+                    return f"{ind}some (none, {env['dq']})"
+                return f"{ind}some (some {self.elem(s.value, env)}, {env['dq']})"
+            self.elem(s.value, env)      # `return handle`: the caller gets the deque
+            return f"{ind}some {env['dq']}"
+        if isinstance(s, ast.If):
+            c = self.cond(s.test, env)
+            then = self.block(s.body + ([] if ends_in_exit(s.body) else rest), env, ind + "  ")
+            els_stmts = (s.orelse + ([] if ends_in_exit(s.orelse) else rest)) if s.orelse else rest
+            els = self.block(els_stmts, env, ind + "  ")
+            return f"{ind}if {c} then\n{then}\n{ind}else\n{els}"
+        if isinstance(s, ast.AugAssign) and isinstance(s.target, ast.Name) and isinstance(s.op, (ast.Add, ast.Sub)) \
+                and s.target.id in env["ints"]:
+            op = "+" if isinstance(s.op, ast.Add) else "-"
+            nm = self.fresh(s.target.id)
+            v = f"{env['ints'][s.target.id]} {op} {self.iexpr(s.value, env)}"
+            env["ints"][s.target.id] = nm
+            return f"{ind}let {nm} : Int := {v}\n" + self.block(rest, env, ind)
+        if isinstance(s, ast.Assign) and len(s.targets) == 1 and isinstance(s.targets[0], ast.Name):
+            name = s.targets[0].id
+            call = self._dq_call(s.value, env)
+            if call and call[0] in ("popleft", "pop") and not call[1]:
+                r, d2 = self.fresh(name), self.fresh("d")
+                prim = "Deque.popleft" if call[0] == "popleft" else "Deque.pop"
+                env2 = {**env, "dq": d2, "elems": {**env["elems"], name: r}}
+                return (f"{ind}match {prim} {env['dq']} with\n{ind}| none => none\n{ind}| some ({r}, {d2}) =>\n"
+                        + self.block(rest, env2, ind + "  "))
+            nm = self.fresh(name)
+            v = self.iexpr(s.value, env)
+            env["ints"][name] = nm
+            return f"{ind}let {nm} : Int := {v}\n" + self.block(rest, env, ind)
+        if isinstance(s, ast.Expr):
+            call = self._dq_call(s.value, env)
+            if call and call[0] == "rotate" and len(call[1]) == 1:
+                d2 = self.fresh("d")
+                line = f"{ind}let {d2} := Deque.rotate {env['dq']} {self.iexpr(call[1][0], env)}\n"
+                return line + self.block(rest, {**env, "dq": d2}, ind)
+            if call and call[0] == "remove" and len(call[1]) == 1:
+                d2 = self.fresh("d")
+                return (f"{ind}match Deque.remove {env['dq']} {self.elem(call[1][0], env)} with\n{ind}| none => none\n"
+                        f"{ind}| some {d2} =>\n" + self.block(rest, {**env, "dq": d2}, ind + "  "))
+            if call and call[0] == "insert" and len(call[1]) == 2:
+                d2 = self.fresh("d")
+                line = (f"{ind}let {d2} := Deque.insert {env['dq']} {self.iexpr(call[1][0], env)} "
+                        f"{self.elem(call[1][1], env)}\n")
+                return line + self.block(rest, {**env, "dq": d2}, ind)
+        raise Unsupported(f"statement {ast.dump(s)[:100]}")
+
+    def start(self, dqname, bools=None):
+        return {"dqname": dqname, "dq": self.dq0, "ints": dict(self.ints0), "elems": dict(self.elems0),
+                "bools": dict(bools or {})}
+
+
+def ends_in_exit(stmts):
+    return bool(stmts) and isinstance(stmts[-1], (ast.Return, ast.Raise))
+
+
+def gen_deque_pop(tools_tree):
+    fn = find_func(tools_tree, None, "deque_pop")
+    a = [x.arg for x in fn.args.args]
+    if len(a) != 2:
+        raise Unsupported("deque_pop signature")
+    dp = DequeProg("d", ["pos"])
+    env = dp.start(a[0])
+    env["ints"] = {a[1]: "pos"}
+    return dp.block(body_no_doc(fn), env, "  ")
+
+
+def gen_queue_find(default_tree):
+    """`for h in reversed(list(queue)): if key(h): [if remove: queue.remove(h)]; return h` / `return None`
+    — the search-loop idiom: first element of the iterated sequence satisfying the test."""
+    fn = find_func(default_tree, None, "queue_find")
+    a = [x.arg for x in fn.args.args]
+    if len(a) != 3:
+        raise Unsupported("queue_find signature")
+    qn, keyn, rmn = a
+    body = [s for s in body_no_doc(fn) if not isinstance(s, ast.Expr) or not isinstance(s.value, ast.Constant)]
+    if len(body) != 2 or not isinstance(body[0], ast.For) or body[0].orelse:
+        raise Unsupported("queue_find is no longer `for ...: ...` followed by a return")
+    loop, tail = body
+    if not (isinstance(tail, ast.Return) and isinstance(tail.value, ast.Constant) and tail.value.value is None):
+        raise Unsupported("queue_find: statement after the loop")
+    it = loop.iter
+    # the iterated sequence: reversed(list(queue)) | list(queue) | reversed(queue) | queue
+    def seq(e):
+        if isinstance(e, ast.Name) and e.id == qn:
+            return "q"
+        if isinstance(e, ast.Call) and isinstance(e.func, ast.Name) and len(e.args) == 1 and not e.keywords:
+            if e.func.id in ("list", "tuple"):
+                return seq(e.args[0])
+            if e.func.id == "reversed":
+                return f"{seq(e.args[0])}.reverse"
+        raise Unsupported("queue_find: iterated sequence")
+    if not isinstance(loop.target, ast.Name):
+        raise Unsupported("queue_find: loop target")
+    hn = loop.target.id
+    if len(loop.body) != 1 or not isinstance(loop.body[0], ast.If) or loop.body[0].orelse:
+        raise Unsupported("queue_find: loop body is not a single `if key(handle):`")
+    test = loop.body[0].test
+    if not (isinstance(test, ast.Call) and isinstance(test.func, ast.Name) and test.func.id == keyn
+            and len(test.args) == 1 and isinstance(test.args[0], ast.Name) and test.args[0].id == hn):
+        raise Unsupported("queue_find: test is not key(handle)")
+    inner = loop.body[0].body
+    if not ends_in_exit(inner):
+        raise Unsupported("queue_find: the match branch does not return")
+    dp = DequeProg("q", [], elems=["h"], ret="optelem")
+    env = dp.start(qn, bools={rmn: "rm"})
+    env["elems"] = {hn: "h"}
+    found = dp.block(inner, env, "    ")
+    return (f"  match ({seq(it)}).find? key with\n  | none => some (none, q)\n  | some h =>\n{found}")
+
+
+def gen_call_pos(default_tree):
+    """`handle = call_soon(...)` appends the new handle; then the deque statements"""
+    fn = find_func(default_tree, None, "call_pos")
+    pos = [x.arg for x in fn.args.args][1]
+    body = body_no_doc(fn)
+    if not (len(body) >= 2 and isinstance(body[0], ast.Assign) and isinstance(body[0].value, ast.Call)
+            and isinstance(body[0].value.func, ast.Name) and body[0].value.func.id == "call_soon"
+            and isinstance(body[0].targets[0], ast.Name)):
+        raise Unsupported("call_pos no longer starts with handle = call_soon(...)")
+    hn = body[0].targets[0].id
+    if not (isinstance(body[1], ast.Assign) and isinstance(body[1].targets[0], ast.Name)
+            and isinstance(body[1].value, ast.Attribute) and body[1].value.attr == "_ready"):
+        raise Unsupported("call_pos: queue = loop._ready expected")
+    qn = body[1].targets[0].id
+    dp = DequeProg("q1", [pos], elems=["h"], ret="deque")
+    env = dp.start(qn)
+    env["ints"] = {pos: "pos"}
+    env["elems"] = {hn: "h"}
+    rest = [s for s in body[2:] if not isinstance(s, ast.Assert)]
+    return "  let q1 := q ++ [h]\n" + dp.block(rest, env, "  ")
+
+
+class PredTr:
+    """boolean functions of a task view: `task._fut_waiter` (None or a future, of which only
+    `.done()` is read), `task.done()`, calls of already translated predicates"""
+
+    def __init__(self, task, known):
+        self.task, self.known = task, known
+        self.opts = {}
+
+    def expr(self, e, bound=None):
+        bound = bound or {}
+        if isinstance(e, ast.UnaryOp) and isinstance(e.op, ast.Not):
+            return f"(!{self.expr(e.operand, bound)})"
+        if isinstance(e, ast.BoolOp) and isinstance(e.op, ast.Or):
+            return "(" + " || ".join(self.expr(v, bound) for v in e.values) + ")"
+        if isinstance(e, ast.BoolOp) and isinstance(e.op, ast.And):
+            first, rest = e.values[0], e.values[1:]
+            x = self._is_not_none(first)
+            if x is not None:
+                inner = self.expr(rest[0] if len(rest) == 1 else ast.BoolOp(op=ast.And(), values=rest),
+                                  {**bound, x: f"{x}_v"})
+                return f"(match {self.opts[x]} with | none => false | some {x}_v => {inner})"
+            return "(" + " && ".join(self.expr(v, bound) for v in e.values) + ")"
+        x = self._is_not_none(e)
+        if x is not None:
+            return f"{self.opts[x]}.isSome"
+        if isinstance(e, ast.Call) and not e.args and isinstance(e.func, ast.Attribute) and e.func.attr == "done" \
+                and isinstance(e.func.value, ast.Name):
+            base = e.func.value.id
+            if base == self.task:
+                return f"{self.task}.done"
+            if base in bound:
+                return bound[base]
+            raise Unsupported(f".done() of {base}, which may be None here")
+        if isinstance(e, ast.Call) and isinstance(e.func, ast.Name) and e.func.id in self.known and len(e.args) == 1 \
+                and isinstance(e.args[0], ast.Name) and e.args[0].id == self.task:
+            return f"({self.known[e.func.id]} {self.task})"
+        raise Unsupported(f"predicate expression {ast.dump(e)[:80]}")
+
+    def _is_not_none(self, e):
+        if isinstance(e, ast.Compare) and len(e.ops) == 1 and isinstance(e.ops[0], ast.IsNot) \
+                and isinstance(e.left, ast.Name) and e.left.id in self.opts \
+                and isinstance(e.comparators[0], ast.Constant) and e.comparators[0].value is None:
+            return e.left.id
+        return None
+
+    def body(self, stmts):
+        out = []
+        for s in stmts:
+            tgt = val = None
+            if isinstance(s, ast.AnnAssign) and isinstance(s.target, ast.Name) and s.value is not None:
+                tgt, val = s.target.id, s.value
+            elif isinstance(s, ast.Assign) and len(s.targets) == 1 and isinstance(s.targets[0], ast.Name):
+                tgt, val = s.targets[0].id, s.value
+            if tgt is not None:
+                if isinstance(val, ast.Attribute) and isinstance(val.value, ast.Name) and val.value.id == self.task \
+                        and val.attr == "_fut_waiter":
+                    self.opts[tgt] = f"{tgt}_"
+                    out.append(f"  let {tgt}_ := {self.task}.futWaiter")
+                    continue
+                raise Unsupported("assignment in a predicate")
+            if isinstance(s, ast.Return):
+                out.append("  " + self.expr(s.value))
+                return "\n".join(out)
+            raise Unsupported(f"statement {type(s).__name__} in a predicate")
+        raise Unsupported("predicate may fall off its end")
+
+
+def gen_sched(src: Path) -> str:
+    tools = ast.parse((src / "asynkit/tools.py").read_text())
+    dflt = ast.parse((src / "asynkit/loop/default.py").read_text())
+    sched = ast.parse((src / "asynkit/scheduling.py").read_text())
+    fb = find_func(sched, None, "task_is_blocked")
+    fr = find_func(sched, None, "task_is_runnable")
+    tb = fb.args.args[0].arg
+    trn = fr.args.args[0].arg
+    blocked = PredTr(tb, {}).body(body_no_doc(fb)).replace(f"{tb}.", "task.")
+    runnable = PredTr(trn, {"task_is_blocked": "taskIsBlocked"}).body(body_no_doc(fr)) \
+        .replace(f"{trn}.", "task.").replace(f"taskIsBlocked {trn}", "taskIsBlocked task")
+    return f"""-- GENERATED by translator/py2lean.py from src/asynkit/tools.py, loop/default.py, scheduling.py — do not edit
+import Asynkit.Model.Deque
+namespace Asynkit.Gen
+open Asynkit
+
+/-- `tools.deque_pop(d, pos)`, statement by statement; `none` = IndexError -/
+def dequePop {{α : Type}} (d : List α) (pos : Int) : Option (α × List α) :=
+{gen_deque_pop(tools)}
+
+/-- `default.queue_find(queue, key, remove)`; `none` = an exception escaped -/
+def queueFind {{α : Type}} [BEq α] (q : List α) (key : α → Bool) (rm : Bool) : Option (Option α × List α) :=
+{gen_queue_find(dflt)}
+
+/-- `default.call_pos(loop, pos, callback)` with `h` the handle `call_soon` creates and appends;
+    `none` = an exception escaped -/
+def callPos {{α : Type}} [BEq α] (q : List α) (pos : Int) (h : α) : Option (List α) :=
+{gen_call_pos(dflt)}
+
+/-- what `task_is_blocked` / `task_is_runnable` read of a task: `_fut_waiter` (`none`, or whether
+    that future is done) and `task.done()` -/
+structure TaskView where
+  futWaiter : Option Bool
+  done : Bool
+
+/-- `scheduling.task_is_blocked` -/
+def taskIsBlocked (task : TaskView) : Bool :=
+{blocked}
+
+/-- `scheduling.task_is_runnable` -/
+def taskIsRunnable (task : TaskView) : Bool :=
+{runnable}
+end Asynkit.Gen
+"""
+
+
 # ---- the whitelist ---------------------------------------------------------------------------
 
 def generate(src: Path) -> dict:
@@ -455,6 +784,7 @@ end Asynkit.Gen
         "def dequePrimitives : List (String × List String) :=\n  ["
         + ", ".join(f"({lean_str(n)}, [" + ", ".join(lean_str(p) for p in ps) + "])" for n, ps in prims) + "]\n"
         "end Asynkit.Gen\n")
+    files["Sched.lean"] = gen_sched(src)
     top = body_no_doc(fn4)
     if len(top) != 1 or not isinstance(top[0], ast.If) or not isinstance(top[0].test, ast.Name):
         raise Unsupported("update_counters is no longer `if inserted: ... else: ...`")
